@@ -206,7 +206,8 @@ class Src:
         # bytes forks once on "this is the read that falls short", and then returns a bytes
         # with a symbolic a in [0, n-1].  (read index, a) ranges over exactly the strict
         # prefixes that end before the last byte this decode would have consumed.
-        self.__dict__["cut"] = cut
+        self.__dict__["cut"] = cut  # True: fork at every read; int j: exactly the j-th read (of n >= 1 bytes) is the short one
+        self.__dict__["cut_reads"] = 0
         self.__dict__["cut_at"] = None  # consumed + a once the short read happened
         self.__dict__["ended"] = False
         self.__dict__["items"] = list(SymBytes.of(data).items)
@@ -326,13 +327,18 @@ class Src:
             need = n
         if self.ended or self.past_end:
             return b""
-        if self.cut and need is not None:
+        if self.cut is not False and need is not None:
             pos = (need > 0)
             if (pos if type(pos) is bool else bool(pos)):
                 c = ctx()
-                # "not short" is taken first, so the depth-first search visits the cut positions from the
-                # END of the encoding backwards (tagged sections and trailers come last)
-                if not c.branch(z3.Not(z3.Bool(c.name("short_read")))):
+                if self.cut is True:
+                    # "not short" is taken first, so the depth-first search visits the cut positions from the
+                    # END of the encoding backwards (tagged sections and trailers come last)
+                    short = not c.branch(z3.Not(z3.Bool(c.name("short_read"))))
+                else:
+                    short = (self.cut_reads == self.cut)
+                    self.cut_reads += 1
+                if short:
                     hi = (need.hi if type(need) is SymInt else need) - 1
                     a, _ = S.sym_var(c.name("short_len"), 0, hi)
                     if type(need) is SymInt:
@@ -525,7 +531,7 @@ class BytesIOModel:
         self._chk()
         src = Src.__new__(Src)
         src.__dict__.update(items=self.items, i=self.idx, consumed=0, limit=None, monitor=ProtocolMonitor(),
-                            fail_at=None, on_read=None, bad_arg=None, cut=False, cut_at=None, ended=False, past_end=0)
+                            fail_at=None, on_read=None, bad_arg=None, cut=False, cut_at=None, ended=False, past_end=0, cut_reads=0)
         r = src.read(n)
         self.idx = src.i
         return r
